@@ -1,5 +1,172 @@
-From Coq Require Import List.
-Require Import Celma.Log.AttrModel Celma.Log.FormatModel.
-Theorem C16_stub : forall c n v, c_find (c_add c n v) n = c_find (c_add c n v) n.
-Proof. reflexivity. Qed.
-Print Assumptions C16_stub.
+(** C16  Every delivered log message is rendered exactly as its format definition says.
+    Only statements; every proof is [exact <lemma of Log/FormatProofs.v, Log/AttrProofs.v>].
+
+    Model: Log/FormatModel.v (Creator, Format, the std::ostream state they touch),
+    Log/AttrModel.v (attribute containers, LogAttributes chains, scoped attributes).
+    The functions without suffix mirror the tree with fixes/C16-1 and C16-2
+    applied; the [_pinned] copies mirror the pinned code.  Vocabulary
+    (Log/FormatProofs.v, Log/AttrProofs.v):
+      [script_of ds]       the stream expression of a list of declarations (options, then a field)
+      [spec_fields sep nonempty ds]  the declared fields, each with its own options only, the
+                           separator in effect between two fields
+      [field_text f s]     s padded with blanks to the field's width on the requested side
+      [content lookup m f] what a field of each kind shows for the message m
+      [lookup_spec ma g n] newest definition of n in the first of: the message's LogAttributes
+                           object, its outer objects, the global store; "" if there is none
+      [first_def cs n]     the same over a list of containers, as an option
+      [nested ops]         scoped attributes created and destroyed in block order *)
+From Coq Require Import List Arith NArith ZArith.
+Import ListNotations.
+Require Import Celma.Common.Res Celma.Log.AttrModel Celma.Log.AttrProofs
+               Celma.Log.FormatModel Celma.Log.FormatProofs.
+
+(** * the definition builder *)
+
+(** Any stream expression on a new Creator (with or without auto separator) over
+    an empty definition: the fields are the declared sequence; width, alignment
+    and format string apply to the next field only (a field declared without
+    them gets width 0, right alignment, no format string); the separator in
+    effect is inserted exactly between two fields; options after the last field
+    are without effect. *)
+Theorem C16_creator_fields :
+  forall sep0 ds trailing,
+    snd (crun (creator_init sep0, []) (script_of ds ++ map cop_of_opt trailing)) =
+    spec_fields (match sep0 with Some s => s | None => [] end) false ds.
+Proof. exact creator_fields. Qed.
+Print Assumptions C16_creator_fields.
+
+(** Continuing a definition that already has fields: they are kept, the new
+    ones follow, and the builder is left without pending options. *)
+Theorem C16_creator_fields_from :
+  forall ds sep fs,
+    crun (mkcr sep [] 0 false, fs) (script_of ds) =
+    (mkcr (fold_left (fun s d => sep_of s (d_opts d)) ds sep) [] 0 false,
+     fs ++ spec_fields sep (negb (is_nil fs)) ds).
+Proof. exact creator_fields_from. Qed.
+Print Assumptions C16_creator_fields_from.
+
+(** * the renderer *)
+
+(** For every definition, message, attribute state and strftime: the text is
+    the concatenation, in definition order, of the fields' contents, each padded
+    to its width and aligned as requested; constant text verbatim; date/time
+    through the field's format string (or the default of its kind); attribute
+    fields by the documented lookup.  Rendering never fails. *)
+Theorem C16_render_concat :
+  forall strftime_ def m ma global,
+    format strftime_ def m ma global =
+    Ok (concat (map (fun f => field_text f (content strftime_ (lookup_spec ma global) m f)) def)).
+Proof. exact render_concat. Qed.
+Print Assumptions C16_render_concat.
+
+(** A field's text is at least as long as its width, exactly max(width, length
+    of the content); the content is never cut; the blanks are on the right for
+    left-aligned fields and on the left otherwise. *)
+Theorem C16_render_field_width :
+  forall f s,
+    length (field_text f s) = Nat.max (Z.to_nat (f_width f)) (length s) /\
+    exists pad, pad = (Z.to_nat (f_width f) - length s)%nat /\
+                field_text f s = if f_left f then s ++ spaces pad else spaces pad ++ s.
+Proof. exact render_field_width. Qed.
+Print Assumptions C16_render_field_width.
+
+(** * attributes *)
+
+(** The most recently defined value of a name wins, whatever older definitions
+    exist and whatever other names were defined later; removing the name brings
+    back the definition before. *)
+Theorem C16_attr_latest_wins :
+  forall later c n v,
+    Forall (fun e => fst e <> n) later ->
+    c_find (later ++ (n, v) :: c) n = Some v /\
+    c_remove (later ++ (n, v) :: c) n = later ++ c.
+Proof. intros. split; [apply c_find_latest|apply c_find_remove_same]; assumption. Qed.
+Print Assumptions C16_attr_latest_wins.
+
+(** The lookup used by attribute fields is the documented search order. *)
+Theorem C16_attr_lookup :
+  forall m global n, attr_lookup m global n = lookup_spec m global n.
+Proof. exact attr_lookup_correct. Qed.
+Print Assumptions C16_attr_lookup.
+
+(** The message's own attributes take precedence over the global ones - also
+    when the value is empty; the global store is used when the message's chain
+    does not define the name. *)
+Theorem C16_attr_msg_before_global :
+  forall ch global n,
+    (forall v, first_def ch n = Some v -> attr_lookup (Some ch) global n = v) /\
+    (first_def ch n = None -> attr_lookup (Some ch) global n = c_get global n).
+Proof.
+  intros. split; [intros v; apply attr_msg_before_global|apply attr_global_when_undefined].
+Qed.
+Print Assumptions C16_attr_msg_before_global.
+
+(** Scoped attributes disappear when their scope ends: any well-nested sequence
+    of scopes leaves the attribute state exactly as it found it, and inside its
+    scope the attribute is the one found. *)
+Theorem C16_attr_scope_restores :
+  forall ops, nested ops -> forall w, arun w ops = w.
+Proof. exact attr_scope_restores. Qed.
+Print Assumptions C16_attr_scope_restores.
+
+Theorem C16_attr_scope_visible :
+  forall w n v inner,
+    nested inner -> c_find (w_global (arun (astep w (SOpen n v)) inner)) n = Some v.
+Proof. exact attr_scope_visible. Qed.
+Print Assumptions C16_attr_scope_visible.
+
+(** * the pinned code *)
+
+(** The pinned lookup (empty string = not found) violates the search order: a
+    message attribute n = "" with a global attribute n = "g" shows "g". *)
+Theorem C16_attr_pinned_refuted :
+  exists m global n, attr_lookup_pinned m global n <> lookup_spec m global n.
+Proof. exact attr_lookup_pinned_refuted. Qed.
+Print Assumptions C16_attr_pinned_refuted.
+
+(** ... and it is right exactly outside that region. *)
+Theorem C16_attr_pinned_partial :
+  forall m global n,
+    Forall (fun c => c_find c n <> Some []) (match m with Some ch => ch | None => [] end) ->
+    attr_lookup_pinned m global n = lookup_spec m global n.
+Proof. exact attr_lookup_pinned_partial. Qed.
+Print Assumptions C16_attr_pinned_partial.
+
+(** The pinned date/time formatting uses its 128 character buffer although
+    strftime reported that the expansion did not fit (modelled as a fault). *)
+Theorem C16_render_pinned_refuted :
+  exists strftime_ def m,
+    format_pinned strftime_ def m None [] = Fault OOBRead /\
+    format strftime_ def m None [] =
+    Ok (strftime_ (f_const (hd (mkfield FDate [] 0 false) def)) (timestamp m)).
+Proof. exact render_pinned_refuted. Qed.
+Print Assumptions C16_render_pinned_refuted.
+
+Theorem C16_render_pinned_partial :
+  forall strftime_ def m ma global,
+    (forall fmt, (length (strftime_ fmt (timestamp m)) < 127)%nat) ->
+    (forall f, In f def -> f_type f = FAttribute ->
+               Forall (fun c => c_find c (f_const f) <> Some [])
+                      (match ma with Some ch => ch | None => [] end)) ->
+    format_pinned strftime_ def m ma global =
+    Ok (concat (map (fun f => field_text f (content strftime_ (lookup_spec ma global) m f)) def)).
+Proof. exact render_pinned_partial. Qed.
+Print Assumptions C16_render_pinned_partial.
+
+(** * non-vacuity *)
+
+(** format_creator << 20 << left << filename << ":" << 6 << line_nbr on a
+    message from filename.cpp, line 1234 (the example of the unit test), with
+    an auto separator and an attribute field added. *)
+Example C16_nonvacuous_script :
+  let file := [102;105;108;101;110;97;109;101;46;99;112;112]%N in
+  fst (run (fun _ _ => []) world_init
+         [WC (ONew (Some [124%N])); WC (OWidth 20); WC OLeft; WC (OField FFileName);
+          WC (OWidth 6); WC (OField FLineNbr); WC (OAttr [110%N]);
+          WA (GAdd [110%N] [103%N]); WA (SOpen [110%N] [115%N]);
+          WMsg (mkmsg 0 0 1 1 file [] 1234 4 4 0 []) None;
+          WA SClose;
+          WMsg (mkmsg 0 0 1 1 file [] 1234 4 4 0 []) None]) =
+  [ Ok (file ++ repeat 32%N 8 ++ [124; 32; 32; 49; 50; 51; 52; 124; 115]%N);
+    Ok (file ++ repeat 32%N 8 ++ [124; 32; 32; 49; 50; 51; 52; 124; 103]%N) ].
+Proof. vm_compute. reflexivity. Qed.
